@@ -9,6 +9,7 @@ import (
 	"net"
 	"net/http"
 	"os"
+	"strconv"
 	"strings"
 	"sync"
 	"time"
@@ -34,14 +35,26 @@ func Quiet() {
 	})
 }
 
-// quietPort returns a loopback port that is free right now, fallback if none can be found.
+// IsQuietPort: p is one of the ports Quiet moved certmagic's HTTP / HTTPS ports to.
+func IsQuietPort(p int) bool {
+	Quiet()
+	return p == certmagic.HTTPPort || p == certmagic.HTTPSPort || p == 18080 || p == 18443
+}
+
+// quietPort returns a loopback port below the ephemeral range that is free right now (the
+// kernel never hands such a port to a connecting socket or to a ":0" listener), chosen from
+// the process id so that concurrent processes start at different places; fallback if none.
 func quietPort(fallback int) int {
-	ln, err := net.Listen("tcp", "127.0.0.1:0")
-	if err != nil {
-		return fallback
+	for i := 0; i < 4000; i++ {
+		p := 14000 + (os.Getpid()*37+i*101+fallback)%4000
+		ln, err := net.Listen("tcp", "127.0.0.1:"+strconv.Itoa(p))
+		if err != nil {
+			continue
+		}
+		ln.Close()
+		return p
 	}
-	defer ln.Close()
-	return ln.Addr().(*net.TCPAddr).Port
+	return fallback
 }
 
 var (
